@@ -378,7 +378,13 @@ class State:
         return [k for k in range(len(self.nodes)) if k not in listed]
 
     def snaps(self, kids):
-        return [[k, snap(self.nodes[k])["tree"]] for k in self.roots(kids)]
+        """Everything beyond the shape that a refused operation must leave
+        alone: the pending-constructor-parent flags and the attribute /
+        symbol-table snapshot of every tree."""
+        flags = [k for k, n in enumerate(self.nodes)
+                 if n.has_constructor_parent]
+        return [["pending_constructor_parent", flags]] + \
+            [[k, snap(self.nodes[k])["tree"]] for k in self.roots(kids)]
 
     def describe(self, k):
         return f"#{k}:{type(self.nodes[k]).__name__}"
